@@ -617,8 +617,30 @@ func ruleDigitBase(c *Ctx) {
 				return
 			}
 			x, y, op := bo.X, bo.Y, bo.Op
+			switch op {
+			case token.LSS, token.LEQ, token.GTR, token.GEQ, token.EQL, token.NEQ:
+			default:
+				return
+			}
 			if _, isC := x.(*ssa.Const); isC {
 				x, y, op = y, x, flipOp(op)
+			}
+			// the unsigned-wrap form  p − z ≤ k  (one comparison for both bounds)
+			if sub, ok := x.(*ssa.BinOp); ok && sub.Op == token.SUB && sub.X == ssa.Value(pred.Params[0]) {
+				if bt, ok := sub.Type().Underlying().(*types.Basic); ok && bt.Info()&types.IsUnsigned != 0 {
+					z, ok1 := constInt(sub.Y)
+					k, ok2 := constInt(y)
+					if ok1 && ok2 && (op == token.LEQ || op == token.LSS) {
+						if op == token.LSS {
+							k--
+						}
+						los = append(los, z)
+						his = append(his, z+k)
+						return
+					}
+				}
+				okForm = false
+				return
 			}
 			if x != ssa.Value(pred.Params[0]) {
 				return
